@@ -487,9 +487,9 @@ fn exhaustive(ctx: &Ctx, rep: &mut Report, max_len: usize) {
 
 pub fn run(ctx: &Ctx, rep: &mut Report) {
     exhaustive(ctx, rep, ctx.tier.pick(4, 5));
-    let cases = ctx.share(ctx.tier.pick(30_000, 2_000_000));
+    let cases = ctx.share(ctx.tier.pick(100_000, 2_000_000));
     engine::drive(ctx, rep, "random", case_strategy(), cases, check_case);
-    let cases = ctx.share(ctx.tier.pick(10_000, 600_000));
+    let cases = ctx.share(ctx.tier.pick(40_000, 600_000));
     engine::drive(ctx, rep, "codec-read", codec_case_strategy(), cases, check_codec_case);
 }
 
